@@ -344,10 +344,26 @@ def apply_fault(ctx, tok, kind, fault, alg, path, placement, stride=1, tag=""):
             m["sig"] = key.sign(msg, pad, hh())
             return f"signature #{m_idx} made with the right key but as {name}", None
         if alg in ES:
+            from ..ref.jwa import der_decode_sig
+            twin = {"ES256": "secp256k1", "ES256K": "P-256"}.get(alg)     # the other registered curve with a field of the same size
+            if ctx.choose(tag + "scheme", ["other-hash"] + (["other-curve-of-the-same-size"] if twin else [])) == "other-curve-of-the-same-size":
+                # a genuine ECDSA signature with the hash the header names, by a key on another curve than the algorithm's, checked with that very key
+                ojwk = scen.key(twin, m_idx)
+                okey = rjwk.load(ojwk, private=True)
+                size = rjwk.CURVES[twin][1]
+                r_, s_ = der_decode_sig(okey.sign(msg, ec.ECDSA(H[ES[alg][1]](), deterministic_signing=True)))
+                m["sig"] = r_.to_bytes(size, "big") + s_.to_bytes(size, "big")
+                from joserfc.jwk import KeySet
+                if path in GENERAL:
+                    ks = []
+                    for i in range(2):
+                        k = ojwk if i == m_idx else scen.key(kind, i * 2)
+                        ks.append(A.jkey({**rjwk.public_of(k), "kid": f"signer-{i}"}, "dict"))
+                    return f"signature #{m_idx} made, and checked, with a key on {twin}", KeySet(ks)
+                return f"signature #{m_idx} made, and checked, with a key on {twin}", A.jkey(rjwk.public_of(ojwk), "dict")
             key = rjwk.load(jwk, private=True)
             size = rjwk.CURVES[jwk["crv"]][1]
             other = hashes.SHA512 if ES[alg][1] != "512" else hashes.SHA256
-            from ..ref.jwa import der_decode_sig
             r_, s_ = der_decode_sig(key.sign(msg, ec.ECDSA(other(), deterministic_signing=True)))
             m["sig"] = r_.to_bytes(size, "big") + s_.to_bytes(size, "big")
             return f"signature #{m_idx} made with the right key but over another hash", None
